@@ -52,23 +52,54 @@ def c08_tagged(v):
     return c08.tagged(v)
 
 
+DOC_ARITY = {}
+
+
+def load_doc_arity():
+    if not DOC_ARITY:
+        for d in extract.documented():
+            a = d["arity"]
+            if a is not None and a.isdigit() and d["key"] not in DOC_ARITY:
+                DOC_ARITY[d["key"]] = int(a)
+        DOC_ARITY.pop("ÞR", None)       # documented twice with two arities (known finding of C20)
+    return DOC_ARITY
+
+
 def observe(case):
     kind, key, m, opkeys, seed = case
+    load_doc_arity()
     import random
 
     import vyxal.elements as E
     from vyxal.transpile import transpile
 
     rng = random.Random(seed)
-    ka = E.elements.get(opkeys[0], ("", 1))[1] if opkeys else 0
-    kb = E.elements.get(opkeys[1], ("", 1))[1] if len(opkeys) > 1 else 0
-    ka = ka if isinstance(ka, int) and ka >= 0 else 1
-    kb = kb if isinstance(kb, int) and kb >= 0 else 1
+
+    def arity(k):
+        tab = E.elements.get(k, ("", 1))[1]
+        tab = tab if isinstance(tab, int) and tab >= 0 else 1
+        doc = DOC_ARITY.get(k)
+        return tab, (doc if doc is not None else tab)
+
+    ta, ka = arity(opkeys[0]) if opkeys else (0, 0)
+    tb, kb = arity(opkeys[1]) if len(opkeys) > 1 else (0, 0)
     sentinels = [[901, [902]], "sentinel", [903]]
-    nargs = max(ka, kb, 1) + (1 if m == "ß" else 0)
+    nargs = max(ta, tb, ka, kb, 1) + (1 if m == "ß" else 0)
     args = [make_arg(rng) for _ in range(nargs)]
     if m == "ß":
         args[-1] = rng.choice([0, 1])
+    if key == "¨ẇ" and not m:
+        args[-1] = rng.choice([0, 0, 1, 2, 3])
+    # an entry below the arguments that shares state with one of them, as `:` (a lazy view of the
+    # original) or a variable pushed twice (the same object) leave it
+    from vyxal.helpers import deep_copy
+    from vyxal.LazyList import LazyList
+    alias_plain = None
+    if isinstance(args[0], (list, LazyList)) and seed % 2 == 0:
+        plain = [1, 2, 3, 4][: 2 + seed % 3]
+        args[0] = LazyList(iter(list(plain))) if seed % 4 == 0 else list(plain)
+        sentinels = sentinels + ([deep_copy(args[0])] if seed % 3 else [args[0]])
+        alias_plain = plain
     stack = sentinels + args
     text = (m or "") + "".join(opkeys)
     idmap = {}
@@ -77,7 +108,10 @@ def observe(case):
         return [idmap.setdefault(id(x), len(idmap) + 1) for x in st]
 
     ev = {"key": cps(key), "opkey": cps(opkeys[0]) if opkeys else [], "m": ord(m) if m else 0, "ka": ka, "kb": kb,
-          "ids0": ids(stack), "vals0": [snapshot(x) for x in sentinels] + [{"a": 1}] * nargs,
+          "ids0": ids(stack),
+          "vals0": [snapshot(x) for x in sentinels[:3]] + ([c08_tagged(alias_plain)] if alias_plain is not None else [])
+                   + [{"a": 1}] * nargs,
+          "topint": args[-1] if isinstance(args[-1], int) and not isinstance(args[-1], bool) and abs(args[-1]) < 1000 else -1,
           "strarg": isinstance(args[-1], str), "raised": "", "ids1": [], "vals1": []}
     keep_alive = list(stack)  # so that ids are not recycled
     try:
@@ -128,7 +162,7 @@ def main(tier):
         if not mc["ok"]:
             V.add("spec:MC_Machine:" + str(mc["violated"]), {"trace": tlc.counterexample(mc["out"])})
         obs = common.pool_map(observe, cs, initfn=common.import_repo, hard_timeout=30,
-                              on_timeout=lambda c: {"key": cps(c[1]), "opkey": [], "m": 0, "ka": 0, "kb": 0, "ids0": [], "vals0": [],
+                              on_timeout=lambda c: {"key": cps(c[1]), "opkey": [], "m": 0, "ka": 0, "kb": 0, "ids0": [], "vals0": [], "topint": -1,
                                                     "strarg": False, "raised": "hang", "ids1": [], "vals1": []})
         verdicts, st = tlc.validate(s, "Trace_Frame", obs, cfg="Trace_Frame.cfg", chunk=3000)
     tally = {}
